@@ -297,9 +297,17 @@ impl Property for C06 {
     }
 
     fn run(case: &Scenario) -> Outcome {
-        let cfg = SimCfg { auto_settle: false, ..Default::default() };
+        let pressure = case_hash(case) % 3 == 0;
+        let cfg = SimCfg {
+            auto_settle: false,
+            write: if pressure { WritePlan { per_call: 3, stall: Some(2) } } else { WritePlan::default() },
+            ..Default::default()
+        };
         let out = run(case, &cfg);
         let mut o = Outcome::ok();
+        if pressure {
+            o.class("write-back-pressure");
+        }
         o.nontrivial = out.stats.qos2_completed >= 1 || out.stats.failing_reasons >= 1;
         if out.stats.qos2_completed > 0 {
             o.class("qos2-completed");
@@ -351,6 +359,38 @@ impl Property for C07 {
 
     fn cases(tier: Tier) -> u32 {
         tier.pick(20_000, 150_000)
+    }
+
+    /// many subscriptions on one client, so that subscription identifiers cross the
+    /// variable-byte-integer widths (127/128; 16383/16384 in the thorough tier)
+    fn exhaustive(tier: Tier, worker: usize, workers: usize) -> Box<dyn Iterator<Item = Scenario>> {
+        let mut v = vec![];
+        let ns: Vec<usize> = if tier == Tier::Thorough { vec![140, 16_500] } else { vec![140] };
+        for (k, n) in ns.into_iter().enumerate() {
+            if k % workers != worker % workers.max(1) && workers > 1 && k != worker {
+                continue;
+            }
+            let mut events = vec![];
+            let ok = Deco { reason_string: true, ..Default::default() };
+            for _ in 0..n {
+                events.push(Ev::Start { h: 0, kind: OpKind::Sub(0), settle: false });
+                events.push(Ev::In(Inbound::Ack { sel: 65535, deco: ok }));
+                events.push(Ev::MakeStream { sel: 65535 });
+            }
+            // first, last, around the 127/128 (and 16383/16384) boundary, and pairs
+            let at = |i: usize| ((i * 65536) / n) as u16;
+            let mut picks = vec![0usize, n - 1, 126, 127, 128, 129];
+            if n > 16_390 {
+                picks.extend([16_382, 16_383, 16_384, 16_385]);
+            }
+            for i in picks.iter().copied() {
+                events.push(Ev::In(Inbound::Publish { qos: (i % 3) as u8, dup: false, retain: false, pid: 0, target: Target::Sub(at(i)), payload_len: 2 }));
+            }
+            events.push(Ev::In(Inbound::Publish { qos: 1, dup: false, retain: false, pid: 0, target: Target::Two(at(127), at(128)), payload_len: 1 }));
+            events.push(Ev::In(Inbound::Publish { qos: 0, dup: false, retain: false, pid: 0, target: Target::Two(at(n - 1), at(0)), payload_len: 1 }));
+            v.push(Scenario { receive_max: None, max_packet_size: None, events });
+        }
+        Box::new(v.into_iter())
     }
 
     fn assumptions() -> Vec<String> {
@@ -409,6 +449,12 @@ impl Property for C08 {
             ]),
             2 => one(stream_events()),
             1 => one(sel().prop_map(|sel| Ev::DropOp { sel })),
+            // several inbound packets arriving in ONE read (or cut arbitrarily)
+            3 => (vec((0u8..3, any::<bool>(), target_any(), 0u16..6), 2..6), crate::gen::chunk_plan(), any::<bool>()).prop_map(|(items, plan, sb)| vec![Ev::Burst {
+                items: items.into_iter().map(|(qos, dup, target, payload_len)| Inbound::Publish { qos, dup, retain: false, pid: 0, target, payload_len }).collect(),
+                plan,
+                settle_between: sb,
+            }]),
         ]
         .boxed();
         scenario_v(Just(None).boxed(), ev, 1..tier.pick(40, 120))
@@ -423,9 +469,19 @@ impl Property for C08 {
     }
 
     fn run(case: &Scenario) -> Outcome {
-        let cfg = SimCfg::default();
+        let pressure = case_hash(case) % 3 == 0;
+        let cfg = SimCfg {
+            write: if pressure { WritePlan { per_call: 1, stall: Some(3) } } else { WritePlan::default() },
+            ..Default::default()
+        };
         let out = run(case, &cfg);
         let mut o = Outcome::ok();
+        if pressure {
+            o.class("write-back-pressure");
+        }
+        if out.stats.multi_packet_reads > 0 {
+            o.class("several-inbound-packets-in-one-read");
+        }
         o.nontrivial = out.stats.inbound_qos_gt0_unroutable >= 1;
         if out.stats.inbound_qos_gt0_unroutable > 0 {
             o.class("qos>0-without-live-subscription");
@@ -444,6 +500,11 @@ impl Property for C08 {
 
 pub struct C09;
 
+/// few identifiers, including pairs that collide when truncated to 8 bits (1/257, 2/258)
+fn c09_pid() -> BoxedStrategy<u16> {
+    prop::sample::select(vec![1u16, 2, 3, 257, 258, 65535]).boxed()
+}
+
 fn c09_prologue() -> Vec<Ev> {
     vec![
         Ev::Start { h: 0, kind: OpKind::Sub(0), settle: false },
@@ -454,14 +515,17 @@ fn c09_prologue() -> Vec<Ev> {
 
 impl Property for C09 {
     const ID: &'static str = "C09";
-    const RULE: &'static str = "sequences over {PUBLISH(QoS 2, identifier in 1..4, DUP 0/1), PUBREL(identifier)} to a live subscription, interleaved with other traffic; exhaustive over a 6-symbol alphabet on 2 identifiers to a bounded depth. The model's awaiting-PUBREL set decides which PUBLISH is a re-delivery. Non-trivial = a re-delivery before PUBREL and a reuse of the identifier after PUBREL both occur";
+    const RULE: &'static str = "sequences over {PUBLISH(QoS 2, identifier in {1,2,3,257,258,65535}, DUP 0/1), PUBREL(identifier)} to a live subscription, interleaved with other traffic; exhaustive over a 6-symbol alphabet on 2 identifiers to a bounded depth. The model's awaiting-PUBREL set decides which PUBLISH is a re-delivery. Non-trivial = a re-delivery before PUBREL and a reuse of the identifier after PUBREL both occur";
     type Case = Scenario;
 
     fn strategy(tier: Tier) -> BoxedStrategy<Scenario> {
         let ev = prop_oneof![
-            10 => in_publish(Just(2u8).boxed(), (1u16..4).boxed(), Just(Target::Sub(0)).boxed()),
-            5 => (1u16..4).prop_map(|pid| Ev::In(Inbound::Pubrel { pid, known: false })),
+            10 => in_publish(Just(2u8).boxed(), c09_pid(), Just(Target::Sub(0)).boxed()),
+            5 => c09_pid().prop_map(|pid| Ev::In(Inbound::Pubrel { pid, known: false })),
             1 => in_publish((0u8..2).boxed(), Just(0u16).boxed(), Just(Target::Sub(0)).boxed()),
+            // QoS 1 traffic reusing the same identifier values must not disturb the QoS 2 state
+            1 => in_publish(Just(1u8).boxed(), c09_pid(), Just(Target::Sub(0)).boxed()),
+            1 => in_publish(Just(2u8).boxed(), c09_pid(), prop_oneof![Just(Target::None), Just(Target::Unknown)].boxed()),
             1 => start(vec![(1, OpKind::Pub1), (1, OpKind::Ping)]),
             1 => ack(deco_ok()),
             1 => Just(Ev::PollStream { sel: 0 }),
